@@ -202,7 +202,21 @@ func c07(w *World) {
 			}
 		case 5:
 			last = "damaged-logon"
-			raw = Build(AdminMsg("A", cl.NextSeq(), cl.PeerID, cl.LibID, LogonFields(limits[0], "0", "eve", "secret")...), WireOpts{BadSum: w.W.Chance(1, 2), BadLen: true})
+			switch w.W.Draw(4) {
+			case 0:
+				// a Logon that is intact in every other respect but carries no sequence number (or one that is
+				// not a number) is a damaged message, not an acceptable Logon: nothing may start because of it
+				raw = Build(dropField(AdminMsg("A", cl.NextSeq(), cl.PeerID, cl.LibID, LogonFields(limits[0], "0", "carol", "secret")...), TagMsgSeqNum), WireOpts{})
+				w.Probe("logon_without_seqnum")
+			case 1:
+				fields := AdminMsg("A", cl.NextSeq(), cl.PeerID, cl.LibID, LogonFields(limits[0], "0", "carol", "secret")...)
+				txt, _ := NonNumeric(w.W, 1)
+				setField(fields, TagMsgSeqNum, txt)
+				raw = Build(fields, WireOpts{})
+				w.Probe("logon_nonnumeric_seqnum")
+			default:
+				raw = Build(AdminMsg("A", cl.NextSeq(), cl.PeerID, cl.LibID, LogonFields(limits[0], "0", "eve", "secret")...), WireOpts{BadSum: w.W.Chance(1, 2), BadLen: true})
+			}
 		case 6:
 			last = "application"
 			raw = cl.Msg(fixgen.MsgTypeMarketDataRequest, F(262, "req"+itoa(i)), F(263, "1"), F(264, "0"))
